@@ -1,6 +1,6 @@
 """C05 - G1 and G2 point arithmetic is the elliptic-curve group law."""
 import os
-import vlib
+import vlib, fam_consts
 from engine import Run, replay_event
 from fam_curve import CURVE, key_of, class_of, confirm_factory
 
@@ -12,6 +12,7 @@ RULE = ("cases = TLC-enumerated scenario tuples group x operation x relation cla
 
 def run(tier):
     run = Run("C05", tier)
+    fam_consts.audit(run, tier)          # the numeric constants this property rests on, from the source text (MC_Consts)
     sc = vlib.scratch()
     # Tier A: the coded Jacobian formulas (CurveAlg.tla) against the affine law for every pair of representatives on toy curves
     for cfg in (["MC_CurveAlg_p19", "MC_CurveAlg_p13"] if tier == "quick" else ["MC_CurveAlg_p19", "MC_CurveAlg_p13", "MC_CurveAlg_p31", "MC_CurveAlg_p43"]):
